@@ -40,6 +40,30 @@ def _all_rebuilders(prog):
 
 
 # --------------------------------------------------------------------------------------------- R1
+
+def _comprehension_rebuild(f):
+    """new_ranking = [frozenset(g) for g in (<members of s that stay> for s in b.ranking) if g]: the per-position rebuild as
+    nested comprehensions.  Returns (keeps non-empty groups only, each group built from one source position only) or None."""
+    for n in astx.walk_own(f.node):
+        if not (isinstance(n, astx.LCOMP) and len(n.generators) == 1 and isinstance(n.generators[0].target, ast.Name)):
+            continue
+        g = n.generators[0]
+        x = g.target.id
+        if not (isinstance(n.elt, ast.Call) and astx.call_name(n.elt) == "frozenset" and n.elt.args and astx.is_name(n.elt.args[0], x)):
+            continue
+        mid = astx.strip_wrappers(g.iter, ("tuple", "list"))
+        if not (isinstance(mid, astx.LCOMP) and len(mid.generators) == 1 and astx.u(mid.generators[0].iter).endswith(".ranking") and not mid.generators[0].ifs):
+            continue
+        s_ = astx.u(mid.generators[0].target)
+        inner = astx.strip_wrappers(mid.elt, ("tuple", "list"))
+        if not (isinstance(inner, astx.LCOMP) and len(inner.generators) == 1):
+            continue
+        own = astx.u(inner.generators[0].iter) == s_ and astx.is_name(inner.elt, getattr(inner.generators[0].target, "id", None))
+        keeps = [astx.u(t) for t in g.ifs] == [x]
+        return keeps, own
+    return None
+
+
 def r1_filter_polarity(ctx):
     prog = ctx.prog
     f = prog.find_func("remove_cand")
@@ -78,8 +102,8 @@ def r1_filter_polarity(ctx):
                         k = bool_key(Normalizer(None, inline=False).guard(t))
                         ctx.check(k == f"not in({kept}, {removed})", f, n, f"comprehension keeps {kept} iff not in {removed}", k,
                                   f"filter `{astx.u(t)}` normalises to `{k}`; documented: keep iff not removed")
-    if sites < 4:
-        ctx.violated(f, f.node, "remove_cand filter sites", f"only {sites} membership filters found (ranking, scores, candidates x2 expected)")
+    if sites < 3:
+        ctx.violated(f, f.node, "remove_cand filter sites", f"only {sites} membership filters found (ranking, scores, candidates expected)")
     # `removed` may be a single name: it must be wrapped into a list before any `in removed` test,
     # otherwise membership degrades to a substring test on the candidate's name
     ann = astx.u(f.param_annotation(removed)) if f.param_annotation(removed) is not None else ""
@@ -102,6 +126,9 @@ def r1_filter_polarity(ctx):
         lits = literals(N.conj(astx.path_condition(f.node, c, pm)))
         inner = astx.u(c.args[0].args[0])
         good = f"truthy({inner})" in lits
+    if not apps:
+        cr = _comprehension_rebuild(f)
+        good = cr is not None and cr[0]
     ctx.check(good, f, apps[0] if apps else f.node, "a position is kept iff it still has members", "", "emptied positions are not dropped (or non-empty ones are)")
     # cleaning helpers
     h = prog.nested_func(prog.find_func("remove_noncands"), "remove_from_ballots")
@@ -119,9 +146,11 @@ def r1_filter_polarity(ctx):
     ctx.check(good, h, kept[0] if kept else h.node, "remove_noncands keeps a position iff not a non-candidate and not already kept", d,
               f"position kept under {d}")
     # to_remove is built as {item} for every non-candidate
-    tr = [c for c in astx.calls_in(h.node, "append") if astx.u(c.func.value) == "to_remove"]
-    ctx.check(len(tr) == 1 and isinstance(tr[0].args[0], ast.Set) and len(tr[0].args[0].elts) == 1, h, tr[0] if tr else h.node,
-              "non-candidates compared as singleton positions", astx.u(tr[0]) if tr else "", "the removal list is not the set of singleton positions of the non-candidates")
+    from vk.listform import build_of
+    bo = build_of(h.node, ast.Name(id="to_remove", ctx=ast.Load()))
+    good = bo is not None and bo.kind == "map" and not bo.conditional and isinstance(bo.elt, ast.Set) and len(bo.elt.elts) == 1 and astx.u(bo.elt.elts[0]) == bo.var
+    ctx.check(good, h, bo.node if bo is not None else h.node,
+              "non-candidates compared as singleton positions", astx.u(bo.elt) if bo is not None else "", "the removal list is not the set of singleton positions of the non-candidates")
     h = prog.nested_func(prog.find_func("deduplicate_profiles"), "deduplicate_ballots")
     Nh = Normalizer(h.node, inline=False)
     pmh = astx.parents(h.node)
@@ -204,6 +233,10 @@ def r2_order(ctx):
             elif isinstance(inner, (ast.ListComp, ast.SetComp, ast.GeneratorExp)):
                 good = len(inner.generators) == 1 and astx.u(inner.generators[0].iter) == pos and astx.is_name(inner.elt, getattr(inner.generators[0].target, "id", None))
             d = f"rebuilt position collects members of `{pos}` only and is reset per position"
+    if not apps:
+        cr = _comprehension_rebuild(f)
+        good = cr is not None and cr[1]
+        d = "each rebuilt position is a comprehension over one source position"
     ctx.check(good, f, apps[0] if apps else f.node, "remove_cand regroups a position from its own surviving members", d,
               "a rebuilt position may mix members of different source positions")
     # expand: prefix [:i] + permutation of position i + suffix [i+1:]
@@ -271,6 +304,12 @@ def r2_order(ctx):
         for nm in src_names:
             plain = [(st, dv) for st, dv in astx.defs_of(f.node, nm) if dv is not None and not isinstance(st, ast.AugAssign)]
             apps = [c for c in astx.calls_in(f.node, "append") if astx.is_name(c.func.value, nm) and len(c.args) == 1]
+            # ... or by `nm += (group,)` / `nm += [group]`
+            for n_ in astx.walk_own(f.node):
+                if isinstance(n_, ast.AugAssign) and isinstance(n_.op, ast.Add) and astx.is_name(n_.target, nm) and isinstance(n_.value, (ast.Tuple, ast.List)) and len(n_.value.elts) == 1:
+                    fake_call = ast.copy_location(ast.Call(func=ast.Attribute(value=ast.Name(id=nm, ctx=ast.Load()), attr="append", ctx=ast.Load()), args=[n_.value.elts[0]], keywords=[]), n_)
+                    fake_call._site = n_
+                    apps.append(fake_call)
             others = [n for n in astx.walk_own(f.node) if isinstance(n, ast.Attribute) and astx.is_name(n.value, nm) and n.attr in ("insert", "extend", "pop", "remove", "sort", "reverse", "clear")]
             if len(plain) != 1 or len(apps) != 1 or others:
                 continue
@@ -279,7 +318,7 @@ def r2_order(ctx):
                                                             and astx.u(base.generators[0].iter).endswith(".ranking")
                                                             and astx.u(astx.strip_wrappers(base.elt, ("frozenset", "set"))) == astx.u(base.generators[0].target))
             arg = astx.strip_wrappers(apps[0].args[0], ("frozenset", "set"))
-            lits = literals(Nc.conj(astx.path_condition(f.node, apps[0], pmf, carried=False))) - {f"truthy({astx.u(base.generators[0].iter) if isinstance(base, astx.LCOMP) else astx.u(base)})"}
+            lits = literals(Nc.conj(astx.path_condition(f.node, getattr(apps[0], "_site", apps[0]), pmf, carried=False))) - {f"truthy({astx.u(base.generators[0].iter) if isinstance(base, astx.LCOMP) else astx.u(base)})"}
             if isinstance(arg, ast.Name) and lits == {f"truthy({arg.id})"} and okbase and plain[0][0].lineno < apps[0].lineno < ctor[0].lineno:
                 md = astx.unique_def(f.node, arg.id)
                 good = md is not None and re.fullmatch(r"\w+\.difference\(\w+\)", astx.u(md)) is not None
@@ -405,14 +444,22 @@ def r4_dropped(ctx):
             return "none"
         if isinstance(dv, ast.Call) and astx.call_name(dv) == "PreferenceProfile":
             bl = next((k.value for k in dv.keywords if k.arg == "ballots"), None)
-            if bl is not None and astx.u(bl) == "tuple(scrubbed_ballots)":
-                return "all"
-            inner = astx.strip_wrappers(bl) if bl is not None else None
-            if isinstance(inner, astx.LCOMP) and astx.u(inner.generators[0].iter) == "scrubbed_ballots" and inner.generators[0].ifs:
-                return "filtered"
-            return "other"
+            if isinstance(bl, ast.Name) and bl.id != "scrubbed_ballots":
+                # the ballots held in a local: every binding that reaches the construction is one of the two forms
+                fs = {ballots_form(v) for _st, v in astx.reaching_defs(f.node, bl.id, dv)}
+                if fs and fs <= {"all", "filtered"}:
+                    return "filtered" if fs == {"filtered"} else ("all" if fs == {"all"} else "filtered+all")
+                return "other"
+            return ballots_form(bl)
         if isinstance(dv, ast.Call) and isinstance(dv.func, ast.Attribute) and dv.func.attr == "condense_ballots":
             return "condensed"
+        return "other"
+    def ballots_form(bl):
+        if bl is not None and astx.u(bl) == "tuple(scrubbed_ballots)":
+            return "all"
+        inner = astx.strip_wrappers(bl) if bl is not None else None
+        if isinstance(inner, astx.LCOMP) and astx.u(inner.generators[0].iter) == "scrubbed_ballots" and inner.generators[0].ifs:
+            return "filtered"
         return "other"
     rets = [r for r in astx.walk_own(f.node) if isinstance(r, ast.Return) and r.value is not None]
     for r in rets:
@@ -422,6 +469,9 @@ def r4_dropped(ctx):
             for st, dv in astx.reaching_defs(f.node, x.id, r):
                 forms.add(form(dv))
         forms.discard("none")
+        if "filtered+all" in forms:
+            forms.discard("filtered+all")
+            forms |= {"filtered", "all"}
         ctx.check("filtered" in forms and forms <= {"filtered", "all", "condensed"}, f, r, "what remove_cand returns is built from the filtered ballots (all of them only under the flag)",
                   str(sorted(forms)), f"the value returned at line {r.lineno} is built as {sorted(forms)}")
     if len(rets) < 2:
@@ -430,9 +480,12 @@ def r4_dropped(ctx):
     # that skips the rebuild must establish that the ballot is not empty (an empty ballot is exhausted: weight 0)
     from vk.paths import PathCounter
     slot_loops = []
+    def _fills(x):
+        """the rebuilt ballot is put into the result list: scrubbed_ballots[i] = ... or scrubbed_ballots.append(...)"""
+        return (isinstance(x, ast.Assign) and isinstance(x.targets[0], ast.Subscript) and astx.u(x.targets[0].value) == "scrubbed_ballots") or \
+            (isinstance(x, ast.Call) and isinstance(x.func, ast.Attribute) and x.func.attr == "append" and astx.u(x.func.value) == "scrubbed_ballots")
     for lp in astx.walk_own(f.node):
-        if isinstance(lp, ast.For) and any(isinstance(x, ast.Assign) and isinstance(x.targets[0], ast.Subscript) and astx.u(x.targets[0].value) == "scrubbed_ballots"
-                                           for x in ast.walk(ast.Module(body=lp.body, type_ignores=[]))):
+        if isinstance(lp, ast.For) and any(_fills(x) for x in ast.walk(ast.Module(body=lp.body, type_ignores=[]))):
             slot_loops.append(lp)
     if len(slot_loops) != 1:
         ctx.violated(f, f.node, "remove_cand: one per-ballot rebuild loop", f"{len(slot_loops)} loops store rebuilt ballots")
@@ -443,7 +496,7 @@ def r4_dropped(ctx):
         from vk.paths import explicit_skips
         fake.body = explicit_skips(lp.body)
         ast.fix_missing_locations(fake)
-        exits = PathCounter(fake, lambda x: isinstance(x, ast.Assign) and isinstance(x.targets[0], ast.Subscript) and astx.u(x.targets[0].value) == "scrubbed_ballots").run()
+        exits = PathCounter(fake, _fills).run()
         Nl = Normalizer(f.node, inline=False)
         bad = []
         for e in exits:
@@ -457,8 +510,8 @@ def r4_dropped(ctx):
                   f"a path through the per-ballot loop ({bad[0][0].kind if bad else ''} at line {getattr(bad[0][0].node, 'lineno', '?') if bad else '?'}, under {sorted(bad[0][1]) if bad else ''}) leaves the ballot's slot as pre-filled: "
                   "an empty ballot keeps its weight instead of being exhausted, or later ballots are never rebuilt")
     # leave_zero_weight_ballots keeps everything
-    keeps = [n for n in astx.walk_own(f.node) if isinstance(n, ast.Call) and astx.call_name(n) == "PreferenceProfile"
-             and any(k.arg == "ballots" and astx.u(k.value) == "tuple(scrubbed_ballots)" for k in n.keywords)]
+    # (wherever the whole list is taken: as the ballots= argument, or bound to a local that is handed over)
+    keeps = [n for n in astx.walk_own(f.node) if isinstance(n, ast.Call) and astx.u(n) == "tuple(scrubbed_ballots)"]
     good = len(keeps) >= 1 and all("truthy(leave_zero_weight_ballots)" in literals(N.conj(astx.path_condition(f.node, k, pm))) for k in keeps)
     ctx.check(good, f, keeps[0] if keeps else f.node, "unfiltered ballots only under leave_zero_weight_ballots", "",
               "the unfiltered ballot tuple is used without leave_zero_weight_ballots")
